@@ -270,6 +270,12 @@ def gen_case(r, ctx, big=False):
             d = ds[0] if r.random() < 0.7 else r.choice(ds)
             radius = r.choice([d, math.nextafter(d, INF), math.nextafter(d, 0.0)]) if d > 0 else 0.0
             rk = "exact_neighbour_distance"
+    # memory layouts of the array arguments (same logical values)
+    mems = ["F", "T", "neg", "strided"]
+    data["mem"] = r.choice(mems) if r.random() < 0.45 else "C"
+    for g in (src, tgt):
+        if g["kind"] != "area":
+            g["mem"] = r.choice(mems) if r.random() < 0.3 else "C"
     eps = 0
     if r.random() < 0.15:
         eps = r.choice([0.125, 0.5, 2.0, 0.1])
@@ -279,7 +285,8 @@ def gen_case(r, ctx, big=False):
             "tgt": tgt["kind"] + ("/" + "+".join(ttag) if ttag else ""), "radius": rk,
             "data": "%s/k%d/%s/%s" % (data["dtype"], data["k"], mkind, data["layout"]),
             "fill": "None" if fill is None else ("nan" if fill != fill else "number"), "sentinel": sentinel,
-            "epsilon": "0" if not eps else "positive"}
+            "epsilon": "0" if not eps else "positive",
+            "mem": "data:%s/src:%s/tgt:%s" % (data["mem"], src.get("mem", "-"), tgt.get("mem", "-"))}
     return case, tags
 
 
@@ -287,7 +294,7 @@ def fixed_cases():
     """Deterministic cases: the inputs of the two known findings / Coq refutation witnesses, and plain sanity cases."""
     def sw(lons, lats, shape=None):
         return {"kind": "swath", "shape": shape or [len(lons)], "lons": lons, "lats": lats, "dtype": "float64"}
-    base = {"region": "equator0", "radius": "typical", "sentinel": False, "epsilon": "0"}
+    base = {"region": "equator0", "radius": "typical", "sentinel": False, "epsilon": "0", "mem": "data:C/src:C/tgt:C"}
     out = []
     out.append(({"src": sw([0.0, 1.0, 2.0], [0.0, 0.0, 0.0]), "tgt": sw([0.1], [0.0]), "radius": 50000,
                  "data": {"dtype": "uint8", "k": 0, "values": [[255], [7], [9]], "mask": None, "layout": "flat"}, "fill": None},
@@ -308,6 +315,17 @@ def fixed_cases():
                  "tgt": sw([0.26, 3.1, 5.9, 8.45, 11.3, 200.0], [0.0, 0.1, 0.2, 0.05, 0.0, 0.0]), "radius": 40000.0,
                  "data": {"dtype": "float64", "k": 0, "values": [[float(i)] for i in range(25)], "mask": None, "layout": "flat"}, "fill": -1.0},
                 dict(base, src="swath/invalid+nan_first", tgt="swath/invalid", data="float64/k0/plain/flat", fill="number")))
+    # neighbour info reused: targets out of reach, first valid source value differs from the fill value
+    out.append(({"src": sw([0.0, 1.0, 2.0], [0.0, 0.0, 0.0]), "tgt": sw([0.1, 40.0, 2.1, -50.0], [0.0, 10.0, 0.0, 5.0], [2, 2]), "radius": 50000.0,
+                 "data": {"dtype": "float64", "k": 0, "values": [[11.0], [12.0], [13.0]], "mask": None, "layout": "flat", "mem": "C"}, "fill": -1.0},
+                dict(base, src="swath", tgt="swath", data="float64/k0/plain/flat", fill="number")))
+    # 2-D field on a 3 x 4 swath handed over column-major / as a transposed view
+    for mem in ("F", "T"):
+        out.append(({"src": sw([float(j) for i in range(3) for j in range(4)], [float(i) for i in range(3) for j in range(4)], [3, 4]),
+                     "tgt": sw([0.1, 2.9, 1.1, 3.0], [0.0, 0.1, 1.9, 2.0], [2, 2]), "radius": 50000.0,
+                     "data": {"dtype": "float64", "k": 0, "values": [[float(10 * i + j)] for i in range(3) for j in range(4)],
+                              "mask": [[(i + j) % 3 == 0] for i in range(3) for j in range(4)], "layout": "geo", "mem": mem}, "fill": None},
+                    dict(base, src="swath", tgt="swath", data="float64/k0/masked/geo", fill="None", mem="data:%s/src:C/tgt:C" % mem)))
     return out
 
 
@@ -336,7 +354,7 @@ def veq(a, b):
     return a == b or (a != a and b != b)
 
 
-def oracle(case, obs):
+def oracle(case, obs, _nested=False):
     """Judge one observation against the property text. Returns list of (key, what)."""
     if "error" in obs:
         return [("C02.error." + obs["error"], "resampling raised %s: %s" % (obs["error"], obs.get("msg", "")))]
@@ -358,6 +376,23 @@ def oracle(case, obs):
         fails.append((key, "output shape %s, expected target shape + channels %s" % (res["shape"], want_shape)))
     if res["dtype"] != d["dtype"]:
         fails.append(("C02.dtype", "output dtype %s, input dtype %s" % (res["dtype"], d["dtype"])))
+    if obs.get("mutated"):
+        fails.append(("C02.history.arguments_mutated", "get_sample_from_neighbour_info changed its argument(s) %s in place (the neighbour info / "
+                      "data belong to the caller and are reused)" % ", ".join(obs["mutated"])))
+    if obs.get("reuse_differs") and not _nested:
+        sub = dict(obs)
+        sub["res"] = obs["res_reuse"]
+        for kdrop in ("mutated", "reuse_differs", "res_reuse", "segments_differ", "k2", "layout_same"):
+            sub.pop(kdrop, None)
+        sub["direct_same"] = True
+        inner = oracle(case, sub, _nested=True)
+        pref = [w for kk_, w in inner if kk_.startswith(("C02.nearest", "C02.invalid_contributes", "C02.epsilon"))]
+        what = pref[0] if pref else (inner[0][1] if inner else "result differs from the first use (which satisfies the property)")
+        fails.append(("C02.history.reuse_of_neighbour_info", "the %s get_sample_from_neighbour_info call with the SAME neighbour info gives a "
+                      "different result: %s" % (obs["reuse_differs"], what)))
+    if obs.get("layout_same") is False:
+        fails.append(("C02.layout", "result depends on the memory layout of the array arguments (%s): differs from the result for C-contiguous "
+                      "copies of the same logical arrays" % case["data"].get("mem")))
     if obs.get("segments_differ"):
         fails.append(("C02.segments", "get_neighbour_info differs from the segments=1 result for segments in %s" % obs["segments_differ"]))
     if obs.get("k2") not in (None, "n/a", "ValueError"):
@@ -594,6 +629,10 @@ def run(ctx):
     for ci, (case, tg, obs) in enumerate(zip(cases, tagl, obs_all["cases"])):
         for kname in ("region", "radius", "fill", "epsilon"):
             ctx.count("%s=%s" % (kname, tg[kname]))
+        for part in tg.get("mem", "").split("/"):
+            if part and not part.endswith("-"):
+                ctx.count("mem_" + part.replace(":", "="))
+        ctx.count("history=info_used_3_times")
         ctx.count("src=" + tg["src"].split("/")[0])
         ctx.count("tgt=" + tg["tgt"].split("/")[0])
         ctx.count("data=" + tg["data"].split("/")[0] + "/" + tg["data"].split("/")[2])
